@@ -21,7 +21,7 @@ RULE = ('documents of the generated grammar (article/book; sectioning to 4 level
 ASSUMPTIONS = ['ground truth by construction (pvmon/gen/docs.py): marker order = depth-first, arguments before content',
                'generated documents are well-formed LaTeX (sectioning at top level only, balanced groups, no fragile commands in arguments)']
 DECIDING_REACH = ['TeX.parse', 'Macro.paragraphs', 'Environment.digest', 'SectionUtils.digest', 'Node.normalize']
-DECIDING_COUNTERS = {'markers_compared': 1000, 'repeated_runs_checked': 50}
+DECIDING_COUNTERS = {'markers_compared': 1000, 'repeated_runs_checked': 50, 'nested_mode_probes': 50}
 
 
 def budget(tier):
@@ -81,11 +81,24 @@ def twins(r):
 def cases(seed, tier, shard, nshards):
     for i in common.sharded(budget(tier)['n'], shard, nshards):
         r = common.rng_for(seed, PROP, i)
-        d = docs.gen(r, probes=True, depth=r.choice([2, 3, 3, 4]), parts=False, eqnarray=r.random() < 0.3, maxsec=r.choice([3, 6, 10]))
+        d = docs.gen(r, probes=True, deep6=True, depth=r.choice([2, 3, 3, 4]), parts=False, eqnarray=r.random() < 0.3, maxsec=r.choice([3, 6, 10]))
         tight = r.random() < 0.3
         pre, suf, tw = twins(r) if r.random() < 0.4 else ('', '', [])
+        # the innermost mode decides: mathematics inside a text box is mathematics, a text box inside mathematics is running text
+        mp = []
+        if r.random() < 0.3:
+            for q in range(r.choice([1, 2])):
+                body = r.choice(["Zm%dy--z", "Zm%dy---z", "Zm%dy''s"]) % (q + 1)
+                box = r.choice(['textbf', 'mbox', 'textit', 'emph'])
+                if r.random() < 0.5:
+                    grp = r.choice(['{%s}', 'x^{%s}', '\\frac{%s}{2}'])
+                    pre += 'T \\%s{T $%s$ T} T\n\n' % (box, grp % body.replace("''", '--'))
+                    mp.append(['Zm%dy' % (q + 1), body.replace("''", '--'), 'mathematics in \\%s' % box])
+                else:
+                    pre += 'T $a \\mbox{%s} b$ T\n\n' % body
+                    mp.append(['Zm%dy' % (q + 1), subst(body), 'a text box in mathematics'])
         yield {'src': docs.latex(d, body_prefix=pre, body_suffix=suf, tight=tight), 'order': docs.markers(d), 'probes': probes_of(d), 'verbs': verbs_of(d), 'cls': d['cls'],
-               'twins': tw}
+               'twins': tw, 'modeprobes': mp}
 
 
 def probes_of(d):
@@ -193,6 +206,13 @@ def run(case, st):
             bad.append(('charsub-in-verbatim', '%s material %r reads %r in the tree (the same run occurs as running text; %s)' % (form, body, lits[0][0], place)))
         if runs[0][0] != want_run:
             bad.append(('charsub-missing', 'running text %r reads %r instead of %r (the same run occurs as %s material; %s)' % (body, runs[0][0], want_run, form, place)))
+    for tag, want_txt, what in case.get('modeprobes', []):
+        st.counters['nested_mode_probes'] += 1
+        hits = [t for t, p in w.twins if tag in t]
+        if len(hits) != 1:
+            bad.append(('repeated-run-not-found', 'probe %s (%s): %d text nodes' % (tag, what, len(hits))))
+        elif hits[0].strip() != want_txt:
+            bad.append(('charsub-in-verbatim' if 'mathematics in' in what else 'charsub-missing', '%s: written/expected %r, the tree has %r' % (what, want_txt, hits[0])))
     for kind, msg in bad[:4]:
         st.violation(kind, case, msg + '\n' + src[:1200])
     if len(doc.context.contexts) != 1:
